@@ -6,7 +6,7 @@
    calcPATSectionLength are re-translated from the source on every run. *)
 From Coq Require Import ZArith List Lia.
 Require Import Base.Bits Base.Iter Base.Wr Gen.Consts Gen.Types Gen.Preds Model.Packet Model.Psi.
-Require Import Model.Desc Spec.CrcSpec Spec.PsiSpec Proofs.PsiProofs Proofs.PsiParse Proofs.PsiParsePmt.
+Require Import Model.Desc Spec.CrcSpec Spec.PsiSpec Proofs.PsiProofs Proofs.PsiParse Proofs.PsiParsePmt Proofs.PsiWritePmt.
 Import ListNotations.
 Open Scope Z_scope.
 
@@ -130,6 +130,32 @@ Theorem C13_parse_pmt_nodesc : forall p filler ssi pb ext ver cni sn lsn pcr (xs
         PSIData_Sections := [pmt_section_value ssi pb ext ver cni sn lsn pcr [] [] streams] |}.
 Proof. exact parse_pmt_unit_nodesc. Qed.
 Print Assumptions C13_parse_pmt_nodesc.
+
+(* C13_write_pmt: writePSIData on a unit of one PMT section is, byte for byte, the reference encoding, RELATIVE to
+   C14's statement about descriptor loops, which enters as an explicit premise: for a descriptor list and its
+   reference encoding (desc_enc), writeDescriptorsWithLength succeeds and emits `reserved(4) length(12) bytes`, and
+   calcDescriptorsLength is the number of those bytes.  Any number of streams (induction), any stream types and
+   PIDs (truncated to their slots on both sides), section within the 12-bit length. *)
+Theorem C13_write_pmt : forall (desc_enc : list Descriptor -> list Z -> Prop),
+  (forall ds bytes, desc_enc ds bytes ->
+     Z.of_nat (length bytes) < 4096 /\ calc_descriptors_length ds = Z.of_nat (length bytes) /\
+     exists its, enc_descriptors_with_length ds = Ok its /\ items_bytes_ok its /\
+                 length (items_bits its) = (8 * (2 + length bytes))%nat /\
+                 bytes_of_items its = spec_desc_loop bytes) ->
+  forall p c h sh d ext_pn pcr pds pbytes xs, 0 <= p < 256 ->
+  PSISectionHeader_TableID h = 2 -> PSISectionHeader_SectionLength h > 0 ->
+  PSISectionSyntaxData_PMT d = Some {| PMTData_ElementaryStreams := map stream_value xs; PMTData_PCRPID := pcr;
+                                       PMTData_ProgramDescriptors := pds; PMTData_ProgramNumber := ext_pn |} ->
+  desc_enc pds pbytes -> Forall (wstream_ok desc_enc) xs ->
+  9 + Z.of_nat (length pbytes) + Z.of_nat (length (flat_map stream_bytes xs)) + 4 < 4096 ->
+  write_psi_data {| PSIData_PointerField := p; PSIData_Sections := [mk_section c h sh d] |} =
+  Ok (p :: repeat 0 (Z.to_nat p) ++
+      spec_pmt_section (PSISectionHeader_SectionSyntaxIndicator h) (PSISectionHeader_PrivateBit h)
+        (PSISectionSyntaxHeader_TableIDExtension sh) (PSISectionSyntaxHeader_VersionNumber sh)
+        (PSISectionSyntaxHeader_CurrentNextIndicator sh) (PSISectionSyntaxHeader_SectionNumber sh)
+        (PSISectionSyntaxHeader_LastSectionNumber sh) pcr pbytes (map stream_spec xs)).
+Proof. exact write_pmt. Qed.
+Print Assumptions C13_write_pmt.
 
 (* non-vacuity: the hypotheses are satisfiable and the statements evaluate as claimed on a concrete PAT with
    edge values; two PAT sections followed by stuffing give two sections and the stop marker *)
